@@ -79,6 +79,10 @@ def _own_programs():
     P["o:min_sym_const111"] = (lambda x: jnp.minimum(x, np.zeros((1, 1, 1), f32)), [("B",)])
     # explicit narrowing cast while everything else follows the double-precision policy (own to_onnx kwargs)
     P["o:x64_narrowing_cast"] = (lambda x: jnp.sin(x.astype(jnp.float32)), [sds((2, 3), np.float64)], {"enable_double_precision": True})
+    P["o:nchw_sym_spatial_broadcast"] = (lambda x: jnp.broadcast_to(jnp.mean(x, axis=(1, 2), keepdims=True), x.shape) + x,
+                                         [("B", "H", "W", 3)], {"inputs_as_nchw": [0]})
+    P["o:nchw_out_sym_spatial"] = (lambda x: jnp.tanh(x) + jnp.ones(x.shape[1:], x.dtype), [("B", "H", "W", 3)],
+                                   {"inputs_as_nchw": [0], "outputs_as_nchw": [0]})
     P["o:int_bcast"] = (lambda a, b: a[:, None] * b[None, :] + 1, [sds((3,), np.int32), sds((4,), np.int32)])
     return P
 
@@ -97,7 +101,7 @@ def own_names():
     return ["o:add_const11", "o:mul_npconst11", "o:add_npconst111_sin", "o:sym_add_npconst11", "o:scalar_plus_const11",
             "o:max_const11", "o:clip_consts", "o:transpose_add_transpose", "o:transpose_mul_const_relu",
             "o:sym_transpose_chain", "o:sym_broadcast_rows", "o:sym_bias", "o:sym_concat_self", "o:sym_mean_keepdims",
-            "o:reshape_add_const", "o:cast_chain", "o:where_cmp", "o:sym_two_aranges", "o:min_sym_const111", "o:x64_narrowing_cast", "o:int_bcast"]
+            "o:reshape_add_const", "o:cast_chain", "o:where_cmp", "o:sym_two_aranges", "o:min_sym_const111", "o:x64_narrowing_cast", "o:nchw_sym_spatial_broadcast", "o:nchw_out_sym_spatial", "o:int_bcast"]
 
 
 # ====================================================================== annotation snapshots (IR level)
@@ -1004,9 +1008,24 @@ def real_refresh(op, operands, out_shape):
     return (None if out.shape is None else tuple(out.shape.dims)), scal
 
 
-def probe_refresh_skips_scalars():
+def probe_refresh_variant():
+    """which model of Annot.refresh_variant the tree implements: 1 = original (one-element constants skipped),
+    2 = fbce23b (operands without a declared shape skipped), 3 = 560936b (give up on an operand without shape, after the
+    source shape has been copied), 4 = nothing is written unless every operand has a shape and the shapes merge"""
     r, _ = real_refresh("Add", [("val", (3,)), ("const", (1, 1))], (1, 3))
-    return r is not None and len(r) == 1
+    if r is not None and len(r) == 1:
+        return 1
+    r, _ = real_refresh("Min", [("val", None), ("const", ())], (1, 3))
+    if r is not None and len(r) == 0:
+        return 2
+    r, _ = real_refresh("Add", [("val", (3,)), ("val", None)], (2, 3))
+    if r is not None and len(r) == 1:
+        return 3
+    return 4
+
+
+VARIANT_NAME = {1: "original", 2: "fbce23b", 3: "560936b", 4: "decide-first"}
+UNKNOWN_RUNTIME_SHAPES = [(2, 3), (4, 1, 3), ()]       # run-time shapes tried for an operand without a declared shape
 
 
 def enc_operand(kind, shape):
@@ -1015,7 +1034,7 @@ def enc_operand(kind, shape):
     return f"(mkOp {enc_odims(_shape_dims_of(shape))} (Some {int(np.prod(shape, dtype=np.int64))}%nat) true)"
 
 
-def tie_refresh(ctx, skip):
+def tie_refresh(ctx, variant):
     rng = ctx.rng
     pool = [("val", s) for s in VAL_SHAPES] + [("const", s) for s in CONST_SHAPES]
     cases = []
@@ -1030,47 +1049,81 @@ def tie_refresh(ctx, skip):
     items, exp, scal_bad = [], [], []
     n_false = 0
     n_sem = 0
-    false_known, false_other = [], []
+    false_known, false_other, false_copied, false_unknown_skipped = [], [], [], []
     for op, operands, out in cases:
         r, scal = real_refresh(op, operands, out)
         exp.append(r)
-        # the property on the REAL function, without any model: all operand shapes concrete -> numpy's broadcast is the truth
-        if r is not None and all(s is not None and all(isinstance(d, int) for d in s) for _k, s in operands) \
-                and all(isinstance(d, int) for d in r):
-            try:
-                truth = tuple(np.broadcast_shapes(*[tuple(s) for _k, s in operands]))
-            except ValueError:
-                truth = None
-            if truth is not None and (op != "Clip" or all(len(s) == 0 for _k, s in operands[1:])):
-                n_sem += 1
+        # the property on the REAL function, without any model: numpy's broadcast of the run-time operand shapes is the
+        # truth; an operand without a declared shape may have any run-time shape (a few are tried).  Only what the
+        # function WRITES is judged (r differs from the old annotation).
+        concrete = all(s is None or all(isinstance(d, int) for d in s) for _k, s in operands)
+        has_none = any(s is None for _k, s in operands)
+        wrote = r is not None and (out is None or tuple(r) != tuple(out))
+        if concrete and wrote and all(isinstance(d, int) for d in r) and (op != "Clip" or all(s is not None and len(s) == 0 for _k, s in operands[1:])):
+            judged = False
+            for rt in (UNKNOWN_RUNTIME_SHAPES if has_none else [None]):
+                try:
+                    truth = tuple(np.broadcast_shapes(*[tuple(rt if s is None else s) for _k, s in operands]))
+                except ValueError:
+                    continue
+                judged = True
                 if tuple(r) != truth:
                     n_false += 1
-                    kept = [len(s) for (k, s), sc in zip(operands, scal) if not sc]
+                    src = next((s for (k, s), sc in zip(operands, scal) if not sc), operands[0][1])
+                    kept = [len(s) for (k, s), sc in zip(operands, scal) if not sc and s is not None]
                     skipped_higher = any(sc and len(s) > max(kept, default=-1) for (k, s), sc in zip(operands, scal))
-                    (false_known if skipped_higher else false_other).append((op, operands, list(r), list(truth)))
+                    rec = (op, operands, list(r), list(truth), rt)
+                    if has_none and src is not None and tuple(r) == tuple(src):
+                        false_copied.append(rec)
+                    elif has_none:
+                        false_unknown_skipped.append(rec)
+                    elif skipped_higher:
+                        false_known.append(rec)
+                    else:
+                        false_other.append(rec)
+                    break
+            n_sem += judged
         model_scal = [(k == "const" and int(np.prod(s, dtype=np.int64)) == 1) for k, s in operands]
         if scal != model_scal:
             scal_bad.append((op, operands, scal))
         items.append("([" + "; ".join(enc_operand(k, s) for k, s in operands) + "], " + enc_odims(_shape_dims_of(out)) + ", " + enc_odims(r) + ")")
     defer_cases("c08_refresh", "list operand * option (list dim) * option (list dim)", items,
-                f"fun c => let '(ins, out, r) := c in odims_eqb_ (refresh_gen {common.blit(skip)} ins out) r",
+                f"fun c => let '(ins, out, r) := c in odims_eqb_ (refresh_variant {int(variant)}%nat ins out) r",
                 lambda ok, bad, log: ctx.oblige(
-                    f"tie:model-refresh_gen({'unchanged' if skip else 'repaired'})-equals-_refresh_elementwise_output_shape({len(items)} nodes)",
+                    f"tie:model-refresh_variant({variant}:{VARIANT_NAME[variant]})-equals-_refresh_elementwise_output_shape({len(items)} nodes)",
                     ok and not bad and not scal_bad, "tie",
                     log if not ok else (f"differ on {[(cases[i], str(exp[i])) for i in bad[:4]]}; is_scalar_const differs on {scal_bad[:3]}"
                                         if (bad or scal_bad) else "")), per_file=700)
-    ctx.coverage["refresh_on_real_function"] = {"nodes_with_concrete_operands_judged_against_numpy": n_sem, "false_annotations": n_false,
-                                                "explained_by_skipped_one_element_constant_of_higher_rank": len(false_known)}
+    def fmt(ops):
+        return [(k, None if sh is None else list(sh)) for k, sh in ops]
+    ctx.coverage["refresh_on_real_function"] = {
+        "nodes_judged_against_numpy": n_sem, "false_annotations_written": n_false,
+        "skipped_one_element_constant_of_higher_rank(variant 1)": len(false_known),
+        "operand_without_shape_skipped(variant 2)": len(false_unknown_skipped),
+        "source_shape_copied_despite_operand_without_shape(variant 3)": len(false_copied), "other": len(false_other)}
     if false_known:
-        op, operands, r, truth = false_known[0]
+        op, operands, r, truth, _rt = false_known[0]
         ctx.violate("refresh:scalar-const-of-higher-rank:node",
-                    f"_refresh_elementwise_output_shape on {op}{[(k, list(s)) for k, s in operands]} writes {r}, numpy broadcast of the operand "
-                    f"shapes is {truth} ({len(false_known)} of {n_sem} small nodes with concrete operands; every one has a skipped one-element "
-                    f"constant whose rank exceeds all kept operands)", {"kind": "refresh_node", "op": op, "operands": [(k, list(s)) for k, s in operands]})
-    for op, operands, r, truth in false_other[:3]:
-        ctx.violate(f"refresh:false-annotation:{op}:{[(k, list(s)) for k, s in operands]}",
+                    f"_refresh_elementwise_output_shape on {op}{fmt(operands)} writes {r}, numpy broadcast of the operand "
+                    f"shapes is {truth} ({len(false_known)} of {n_sem} small nodes; every one has a skipped one-element "
+                    f"constant whose rank exceeds all kept operands)", {"kind": "refresh_node", "op": op, "operands": fmt(operands)})
+    if false_unknown_skipped:
+        op, operands, r, truth, rt = false_unknown_skipped[0]
+        ctx.violate("refresh:operand-without-shape-skipped:node",
+                    f"_refresh_elementwise_output_shape on {op}{fmt(operands)} writes {r} from the other operands although an operand has no "
+                    f"declared shape; with that operand {list(rt)} at run time the result is {truth} ({len(false_unknown_skipped)} of {n_sem} small nodes)",
+                    {"kind": "refresh_node", "op": op, "operands": fmt(operands), "unknown_runtime": list(rt)})
+    if false_copied:
+        op, operands, r, truth, rt = false_copied[0]
+        ctx.violate("refresh:source-shape-copied-despite-operand-without-shape:node",
+                    f"_refresh_elementwise_output_shape on {op}{fmt(operands)} writes the source operand's shape {r} (copied by _copy_shape_dtype "
+                    f"before the pass gives up on the operand without a declared shape); with that operand {list(rt)} at run time the result is "
+                    f"{truth} ({len(false_copied)} of {n_sem} small nodes)",
+                    {"kind": "refresh_node", "op": op, "operands": fmt(operands), "unknown_runtime": list(rt)})
+    for op, operands, r, truth, _rt in false_other[:3]:
+        ctx.violate(f"refresh:false-annotation:{op}:{fmt(operands)}",
                     f"_refresh_elementwise_output_shape writes {r}, numpy broadcast of the operand shapes is {truth}",
-                    {"kind": "refresh_node", "op": op, "operands": [(k, list(s)) for k, s in operands]})
+                    {"kind": "refresh_node", "op": op, "operands": fmt(operands)})
     return len(items)
 
 
@@ -1151,7 +1204,7 @@ def run(ctx):
         "change) and the PRELUDE text of gen/GenShapes.v (meaning of isinstance / int() / str() / loops on the dims an ir.Shape "
         "stores); validated on this run against the running Python on every dim-kind combination up to rank 2 (pairs), rank-1 "
         "triples and random rank<=3 tuples",
-        "hand models Annot.refresh_gen / Annot.loosen / Annot.is_scalar_const tied differentially to the real functions on small onnx_ir graphs",
+        "hand models Annot.refresh_variant / Annot.loosen / Annot.is_scalar_const tied differentially to the real functions on small onnx_ir graphs",
         "tools/onnx2coq.py (ModelProto -> Onnx.omodel) for the checker run on real exports",
         "onnxruntime 1.30 CPU (graph optimisations disabled) as the run-time reference; onnx protobuf reader",
         "ONNX operator shape rules as transcribed in Annot.rule_on (elementwise unary, multidirectional broadcast, Transpose, "
@@ -1169,10 +1222,10 @@ def run(ctx):
     except Exception:  # noqa
         ctx.oblige("tie:translated-vs-python", False, "tie", traceback.format_exc()[-1500:])
         distinct = 0
-    skip = True
+    variant = 1
     try:
-        skip = probe_refresh_skips_scalars()
-        evals += tie_refresh(ctx, skip)
+        variant = probe_refresh_variant()
+        evals += tie_refresh(ctx, variant)
     except Exception:  # noqa
         ctx.oblige("tie:refresh-model", False, "tie", traceback.format_exc()[-1500:])
     try:
@@ -1185,15 +1238,19 @@ def run(ctx):
         ctx.oblige("tie:coq-evaluation", False, "tie", traceback.format_exc()[-1500:])
     timing["ties_s"] = round(time.time() - t_, 1)
     ctx.coverage["timing"] = timing
-    ctx.coverage["refresh_model_in_force"] = "unchanged tree: one-element constants of any rank are skipped" if skip else \
-        "repaired: one-element constants take part in the broadcast"
+    ctx.coverage["refresh_model_in_force"] = (
+        f"variant {variant} ({VARIANT_NAME[variant]}): " +
+        {1: "one-element constants of any rank are skipped (C08_refresh_sound_refuted / _partial)",
+         2: "operands without a declared shape are skipped (C08_refresh_variant2_refuted / C08_refresh_fixed_sound)",
+         3: "gives up on an operand without a declared shape after copying the source shape (C08_refresh_variant3_refuted / _sound_partial)",
+         4: "writes only when every operand has a shape and the shapes merge (C08_refresh_variant4_sound, full strength)"}[variant])
 
-    # ---- the refuted theorem on the REAL code: the witness through the real optimizer
-    if skip:
+    # ---- the refuted theorem of the variant in force on the REAL code: its witness through the real optimizer
+    if variant in (1, 2, 3):
         try:
-            w = refresh_witness_real()
+            w = refresh_witness_real(variant)
             if w is not None:
-                ctx.violate("refresh:scalar-const-of-higher-rank:optimize_graph", w, {"kind": "refresh_witness"})
+                ctx.violate(w[0], w[1], {"kind": "refresh_witness", "variant": variant})
         except Exception:  # noqa
             ctx.assumptions.append("refresh witness through optimize_graph could not be replayed: " + traceback.format_exc()[-300:])
 
@@ -1241,29 +1298,61 @@ def run(ctx):
     return ctx
 
 
-def refresh_witness_real():
-    """Add(x:[3], c:[1,1] const) -> y annotated [1,3], y a graph output, through the real optimize_graph"""
+def refresh_witness_real(variant=1):
+    """the witness of the refuted theorem of `variant` through the real optimize_graph + onnxruntime; -> (key, what) | None"""
     import onnx
     import onnx_ir as ir
+    import onnxruntime as ort
     from jax2onnx.converter import ir_optimizations as opt
-    x = ir.val("x", ir.DataType.FLOAT, (3,))
-    c = ir.val("c", ir.DataType.FLOAT, (1, 1), const_value=ir.tensor(np.ones((1, 1), np.float32)))
-    y = ir.val("y", ir.DataType.FLOAT, (1, 3))
-    g = ir.Graph(name="g", inputs=[x], outputs=[y], nodes=[ir.Node(op_type="Add", domain="", inputs=[x, c], outputs=[y], name="a")],
-                 initializers=[c], opset_imports={"": 21})
+    F = ir.DataType.FLOAT
+    if variant == 1:       # Add(x:[3], c:[1,1] const) -> y declared [1,3]
+        x = ir.val("x", F, (3,))
+        c = ir.val("c", F, (1, 1), const_value=ir.tensor(np.ones((1, 1), np.float32)))
+        y = ir.val("y", F, (1, 3))
+        ins, inits, nodes, feed, true = [x], [c], [ir.Node(op_type="Add", domain="", inputs=[x, c], outputs=[y], name="a")], {"x": (3,)}, [1, 3]
+        key = "refresh:scalar-const-of-higher-rank:optimize_graph"
+    elif variant == 2:     # Min(s without shape, scalar const) -> y declared [1,3]
+        s_ = ir.Value(name="s", type=ir.TensorType(F), shape=None)
+        c = ir.val("c", F, (), const_value=ir.tensor(np.asarray(2.0, np.float32)))
+        y = ir.val("y", F, (1, 3))
+        ins, inits, nodes, feed, true = [s_], [c], [ir.Node(op_type="Min", domain="", inputs=[s_, c], outputs=[y], name="a")], {"s": (1, 3)}, [1, 3]
+        key = "refresh:operand-without-shape-skipped:optimize_graph"
+    else:                  # Add(x:[3], t without shape) -> y declared [2,3]
+        x = ir.val("x", F, (3,))
+        t = ir.Value(name="t", type=ir.TensorType(F), shape=None)
+        y = ir.val("y", F, (2, 3))
+        ins, inits, nodes, feed, true = [x, t], [], [ir.Node(op_type="Add", domain="", inputs=[x, t], outputs=[y], name="a")], {"x": (3,), "t": (2, 3)}, [2, 3]
+        key = "refresh:source-shape-copied-despite-operand-without-shape:optimize_graph"
+    g = ir.Graph(name="g", inputs=ins, outputs=[y], nodes=nodes, initializers=inits, opset_imports={"": 21})
     m = ir.Model(g, ir_version=10)
     opt.optimize_graph(m)
     p = ir.to_proto(m)
-    decl = [d.dim_value for d in p.graph.output[0].type.tensor_type.shape.dim]
-    if decl == [1, 3]:
+    tt = p.graph.output[0].type.tensor_type
+    decl = [d.dim_value for d in tt.shape.dim] if tt.HasField("shape") else None
+    if decl is None or decl == true:
         return None
+    chk = "onnxruntime only warns"
+    if variant == 1:
+        try:
+            onnx.checker.check_model(p, full_check=True)
+            chk = "accepted by onnx.checker"
+        except Exception as e:  # noqa
+            chk = "onnx.checker(full_check) rejects: " + str(e).strip().split("\n")[-1][:160]
+    q = onnx.ModelProto()
+    q.CopyFrom(p)
+    for o in q.graph.output:
+        o.ClearField("type")
+    del q.graph.value_info[:]
     try:
-        onnx.checker.check_model(p, full_check=True)
-        chk = "accepted by onnx.checker"
+        so = ort.SessionOptions()
+        so.log_severity_level = 4
+        rt = list(ort.InferenceSession(q.SerializeToString(), so, providers=["CPUExecutionProvider"]).run(
+            None, {k: np.zeros(v, np.float32) for k, v in feed.items()})[0].shape)
     except Exception as e:  # noqa
-        chk = "onnx.checker(full_check) rejects: " + str(e).strip().split("\n")[-1][:160]
-    return (f"optimize_graph re-annotates the graph output of Add(x:[3], c:[1,1] initializer) from [1,3] to {decl} "
-            f"(run-time shape [1,3]); {chk}")
+        rt = "onnxruntime failed: " + str(e)[:100]
+    node = nodes[0]
+    return key, (f"optimize_graph re-annotates the graph output of {node.op_type}({', '.join(v.name + ':' + (str(list(v.shape.dims)) if v.shape is not None else 'no shape') for v in node.inputs)}) "
+                 f"from {true} to {decl}; onnxruntime produces {rt} for inputs {feed}; {chk}")
 
 
 def report_corpus(ctx, results, label):
@@ -1349,13 +1438,13 @@ def replay(path):
     r = json.load(open(path))
     rep = r.get("replay") or {}
     if rep.get("kind") == "refresh_witness":
-        w = refresh_witness_real()
+        w = refresh_witness_real(int(rep.get("variant", 1)))
         print(w or "the witness is annotated correctly now")
         return 1 if w else 0
     if rep.get("kind") == "refresh_node":
-        operands = [(k, tuple(sh)) for k, sh in rep["operands"]]
+        operands = [(k, None if sh is None else tuple(sh)) for k, sh in rep["operands"]]
         rr, _ = real_refresh(rep["op"], operands, None)
-        truth = tuple(np.broadcast_shapes(*[sh for _k, sh in operands]))
+        truth = tuple(np.broadcast_shapes(*[tuple(rep.get("unknown_runtime", ())) if sh is None else sh for _k, sh in operands]))
         print("refresh writes", rr, "numpy broadcast", truth)
         return 1 if tuple(rr or ()) != truth else 0
     if rep.get("kind") == "export":
